@@ -210,21 +210,23 @@ class SymX:
             # the same pure test on unchanged names has the same outcome as earlier on this path
             pure = _pure_names(st.test)
             key = None
+            flip = False
             if d is None and pure is not None:
-                key = src(st.test)
+                # canonical positive form: `x is not y` / `x != y` / `not t` share the entry of `x is y` / `x == y` / `t` with the outcome flipped
+                key, flip = _canon_test(st.test)
                 vers = tuple(s.ver.get(n, 0) for n in pure)
                 prev = s.decided.get(key)
                 if prev is not None and prev[1] == vers:
-                    d = prev[0]
+                    d = prev[0] != flip
             outs = []
             if key is not None and d is None:
                 vers = tuple(s.ver.get(n, 0) for n in pure)
                 # record on both forks below
-                s.decided[key] = (False, vers)
+                s.decided[key] = (False != flip, vers)
             if d is None or d is True:
                 a = s.fork() if d is None else s
                 if key is not None and d is None:
-                    a.decided[key] = (True, tuple(a.ver.get(n, 0) for n in pure))
+                    a.decided[key] = (True != flip, tuple(a.ver.get(n, 0) for n in pure))
                 a.conds.append((st.test, True))
                 a.rconds.append((rtext, True, st.test))
                 a.events.append(Event('cond', st, src(st.test), True, depth=a.depth, extra=rtext.get(id(st.test))))
@@ -433,6 +435,18 @@ def _const_test(test, lin):
         op = test.ops[0]
         return {ast.Eq: a == b, ast.NotEq: a != b, ast.Lt: a < b, ast.LtE: a <= b, ast.Gt: a > b, ast.GtE: a >= b}.get(type(op))
     return None
+
+
+def _canon_test(test):
+    flip = False
+    t = test
+    while isinstance(t, ast.UnaryOp) and isinstance(t.op, ast.Not):
+        t, flip = t.operand, not flip
+    if isinstance(t, ast.Compare) and len(t.ops) == 1 and isinstance(t.ops[0], (ast.IsNot, ast.NotEq, ast.NotIn)):
+        pos = {ast.IsNot: ast.Is, ast.NotEq: ast.Eq, ast.NotIn: ast.In}[type(t.ops[0])]
+        t = ast.Compare(left=t.left, ops=[pos()], comparators=t.comparators)
+        flip = not flip
+    return src(t), flip
 
 
 def _pure_names(test):
